@@ -11,6 +11,7 @@ import (
 	"strings"
 	"time"
 
+	"seata.apache.org/seata-go/pkg/protocol/message"
 	"seata.apache.org/seata-go/pkg/tm"
 
 	"verifharness/atrun"
@@ -396,7 +397,8 @@ func runSide(e *sys.Env, db *sql.DB, c Case, global bool) (sideRun, error) {
 	snap := atrun.BusinessTables(e.Srv.Snapshot())
 	sr.state = snap.String()
 	for _, ev := range e.TC.Events() {
-		if ev.Dir == "c2s" {
+		if _, isReg := ev.Msg.Body.(message.RegisterTMRequest); ev.Dir == "c2s" && !isReg {
+			// (the client announces itself as TM asynchronously when the session opens; that is not statement traffic)
 			sr.tcReqs++
 		}
 	}
